@@ -29,6 +29,15 @@ TIE = {'convert.py converters, vote.py subsetters': 'correspondence',
        'component/rankscore.py Borda.scores on an uninitialised scorer (RuntimeError)': 'correspondence (C18)',
        'convert.py VoteTotals / MergedDistributions / ConstituencyTotals / PartyTotals / InvertedSimpleVotes / GroupVotesByParty / '
        'IndividualToPartyResult / SelectionToDistribution / MergedSelections / ByConstituency / Chain (Model/Convert2.v, unit 210)': 'correspondence',
+       'convert.py ScoreToSimpleVotes (Model/Cardinal.v score_to_simple, unit 27; modelled for C12)': 'correspondence of the aggregated values (sum / mean / '
+                                                                                                    'median_low, with and without the corrections) + the exact '
+                                                                                                    'statements of C13_score_*_value on the implementation',
+       'convert.py InvalidVoteEliminator (Model/Validate.v eliminate, unit 20; modelled for C20)': 'correspondence (generator and wire format of C20) + filter / '
+                                                                                                   'additivity clauses on the implementation',
+       'Model/Convert2.v same_cands (the side condition of C13_chain_additive_same_cands, unit 212)': 'correspondence with the same condition evaluated on the '
+                                                                                                      "implementation's own intermediate profiles (every prefix of the Chain run on both sub-profiles)",
+       'Model/Convert2.v dr_class / sig_round (the double-rounding class, unit 211)': 'correspondence: class bit recomputed in exact rational arithmetic, the 28 digit '
+                                                                                      'quotient of the decimal module, RoundedVotes on the Fraction, exact rounding',
        'convert.py RoundedVotes (alone, behind Chain, inside ByConstituency)': 'correspondence with Model/Convert2.v round_q (exact rounding) inside the 28 digit '
                                                                               'domain and with round_code (28 digit quotient first, InvalidOperation) everywhere, '
                                                                               '+ independent exact-rational oracle in the harness'}
@@ -53,17 +62,32 @@ RULE = ('corpus; ranked profiles over 2..5 candidates (shared ranks 25 %, trunca
         'rational rounding computed in the harness, keys and ballot count unchanged; negative decimals refused with ValueError. rounded-wide stream: '
         'counts outside the exact domain of the 28 digit decimal context (Fractions within 10^-27..10^-40 of a half or of the grid, non-terminating '
         'fractions with denominators up to 3*10^27, Decimals of 29..40 digits, results of more than 28 digits) against round_code only. '
+        'rounded-class stream (unit 211): Fractions of the rounded-wide shapes; class bit, quotient, library result and exact rounding compared with the '
+        'model; outside the class the library must give the exact rounding, with a half strictly between count and quotient it must not. same-cands stream '
+        '(unit 212): Chains of accumulating converters and inversions over two sub-profiles (the halves of one profile, or two overlapping profiles); the side '
+        'condition as computed by the model = the condition on the intermediate profiles of the implementation; where it holds conv(A+B) == conv(A)+conv(B) keys and '
+        'counts. score-simple stream (unit 27): score profiles with integer counts 0..40, sum / mean / median_low, 70 % plain configuration; aggregated values compared; '
+        'sum: per-ballot image and additivity over all splits; mean: value * number of scores == sum of scores; median_low: 2 #below < #scores <= 2 #at-most. '
+        'eliminator stream: the InvalidVoteEliminator cases of C20; kept == the ballots that pass alone, conv(A) + conv(B) == conv(A+B) for a random cut. '
+        'reuse clause: every converter object first serves a history of 1..3 other calls (other profiles over more / fewer candidates; for a Borda scorer also '
+        'set_n_candidates(k) and scores(n) on the shared scorer; Chains / ByConstituency: other data of the same shape) and must then answer as a fresh one. '
+        'MergedSelections: permutation of the distinct candidates, sorted by (appearances, sum of reversed ranks), ties in order of first appearance, recomputed on the output. '
         'non-trivial = shared rank or two ballots with the same image or a truncated ballot '
         '(rounded: a count that is not already on the grid; totals: more than one constituency; chain: more than one ballot or link); distinct by case hash')
 PARTIAL = ['RoundedVotes is not additive by nature (C13_rounded_additive_refuted, C13_chain_rounded_refuted): its per-ballot image is decided. The exact '
-           'image round_q holds of the code for counts the library\'s single 28 digit division represents exactly (sig_round 28 x == x: every count '
-           'with at most 28 significant digits; C13_rounded_code_exact) and whose result fits 28 digits; outside, the library rounds twice '
-           '(C13_rounded_double_rounding_refuted: Fraction 1/2 + 10^-30, ROUND_HALF_DOWN, 0 decimals -> 0) or raises InvalidOperation - behaviour '
-           'reproduced by Model/Convert2.v round_code and compared on the rounded-wide stream, not a clause of the property',
+           'image round_q holds of the code for every count outside the double-rounding class dr_class (no rounding boundary of the mode in the closed interval '
+           'between the count and its 28 digit quotient: C13_rounded_code_outside_class; the counts of at most 28 significant digits are the special case '
+           'C13_rounded_code_exact) whose result fits 28 digits; inside the class the library rounds twice (C13_rounded_half_between_refuted: always wrong when a '
+           'half lies strictly between; when the count or the quotient IS the boundary the tie rule of the mode decides - not characterised further; for the '
+           'directed modes the class is sufficient, not exact: ROUND_DOWN does not jump at 0, ROUND_05UP not at 1 mod 5) or raises InvalidOperation - reproduced by '
+           'Model/Convert2.v round_code, compared on the rounded-wide and rounded-class streams',
+           'ScoreToSimpleVotes: theorems for the plain configuration (no unscored_value, min_count <= 0, no truncation) and ballot counts >= 0; sum is per-ballot exact and '
+           'additive, mean and median_low are NOT additive (C13_score_mean_additive_refuted, C13_score_median_additive_refuted) - the property\'s list of converters '
+           'does not name ScoreToSimpleVotes; what is additive are the tallies they are computed from (C13_score_tallies_additive). The corrections are compared only',
+           'MergedSelections merges rankings, not votes: no additivity of the result; its two tallies are additive (C13_merged_sel_tallies_additive)',
            'A Decimal count (the output of RoundedVotes) cannot be combined with Fraction counts by later converters (TypeError in Fraction * Decimal): '
            'Chains with RoundedVotes before an accumulating converter are outside the explored domain',
-           'ByConstituency deeper than one level, SubsettedVotes(depth > 0), IndividualToPartyMapper(independents=keep / error): not exercised; '
-           'MergedSelections is modelled and compared, no theorem (it merges rankings, not votes)']
+           'ByConstituency deeper than one level, SubsettedVotes(depth > 0), IndividualToPartyMapper(independents=keep / error): not exercised']
 TRUSTED = []
 KINDS = {'approval_simple': 1, 'first_pref': 2, 'first_n': 3, 'presence': 4, 'ranked_approval': 5, 'positional': 6,
          'condorcet': 7, 'score_ranked': 8, 'score_approval': 9, 'inverted_approval': 10, 'party': 11,
